@@ -16,7 +16,10 @@ RULE = ("EXHAUSTIVE over the mass table of /repo: for every tolerance in {0.01, 
         "non-default values (max_delta / guess_atol = 0, 0.0, numpy 0.0, 1e-9, negative, 1, 1e6, 1e300; positional and keyword "
         "spellings; atom_format full / atomic; Atoms.load(..., filetype='lmpdat', **kw)); SEQUENCES of calls in one process "
         "with the same masses and different tolerances (large first, small first, back again; mixed entry points), each "
-        "call compared with the stateless oracle and model. "
+        "call compared with the stateless oracle and model; the run-time table ATOMIC_MASSES (all module aliases) compared "
+        "with an independent re-read of the source at the start, after constructor calls with unknown / odd element names "
+        "(elements= / atom_type_elements= / CML, with and without explicit masses) and at the end, each followed by small "
+        "masses (0.05, 0, 0.09, 0.0999, 0.001, -0.05) through both entry points. "
         "Non-trivial = distinct input in which some mass is not an exact table mass, or is the exact mass of an element "
         "that has a heavier element before it in table order (Ar/K, Co/Ni, Te/I, Th/Pa, U/Np, ...).")
 
@@ -225,9 +228,67 @@ def tol_value(call):
     return t
 
 
+def table_check(T):
+    """the run-time mass table(s) of the library against an independent re-read of the source text"""
+    import mofun
+    import mofun.atomic_masses
+    import mofun.helpers
+    import mofun.atoms
+    want = [(s, float(M)) for s, M in T]
+    ref = mofun.atomic_masses.ATOMIC_MASSES
+    for name, mod in (("mofun.atomic_masses", mofun.atomic_masses), ("mofun.helpers", mofun.helpers),
+                      ("mofun.atoms", mofun.atoms), ("mofun", mofun)):
+        tbl = getattr(mod, "ATOMIC_MASSES", None)
+        if tbl is None:
+            continue
+        got = [(str(k), float(v)) for k, v in tbl.items()]
+        if got != want:
+            extra = [kv for kv in got if kv not in want]
+            missing = [kv for kv in want if kv not in got]
+            return ("the mass table was modified at run time: %s.ATOMIC_MASSES differs from the source (extra %s, missing %s%s)"
+                    % (name, extra[:5], missing[:5], "" if extra or missing else ", order changed"))
+    return None
+
+
+def real_construct(call):
+    """Atoms(...) with unusual element names; exceptions are expected and fine — nothing may be left behind"""
+    import numpy as np
+    from mofun import Atoms
+    els = list(call["elements"])
+    n = len(els)
+    pos = np.zeros((n, 3)) + np.arange(n).reshape(n, 1)
+    how = call["how"]
+    try:
+        with core.quiet():
+            if how == "elements":
+                Atoms(elements=els, positions=pos)
+            elif how == "elements+masses":
+                Atoms(elements=els, positions=pos, atom_type_masses=[1.5 + i for i in range(len(dict.fromkeys(els)))])
+            elif how == "types":
+                Atoms(atom_types=list(range(n)), atom_type_elements=els, positions=pos)
+            elif how == "types+masses":
+                Atoms(atom_types=list(range(n)), atom_type_elements=els, positions=pos, atom_type_masses=[0.05] * n,
+                      atom_type_labels=["t%d" % i for i in range(n)])
+            else:
+                xml = "<molecule><atomArray>" + "".join(
+                    '<atom id="a%d" elementType="%s" x3="0.0" y3="0.0" z3="%d.0"/>' % (i, e, i) for i, e in enumerate(els)
+                ) + "</atomArray></molecule>"
+                Atoms.load_cml(io.StringIO(xml))
+        return {"ok": True}
+    except Exception as e:  # noqa
+        return {"err": "error:" + type(e).__name__}
+
+
 def do_call(T, call):
     """one call of the real code described by a record; returns (result for the tie, oracle verdict). The oracle is
     STATELESS: it knows nothing about earlier calls, so any memory the code keeps between calls shows up here."""
+    if call["op"] == "construct":
+        return real_construct(call), None
+    if call["op"] == "table-check":
+        for c in call.get("constructs", []):
+            real_construct(c)
+        bad = table_check(T)
+        return {"ok": bad is None}, bad
     ms = [float(Fraction(x)) for x in call["masses"]]
     fms = [fr(m) for m in ms]
     ftol = Fraction(call["tol"])
@@ -321,6 +382,59 @@ def run(ctx, oracle_only=False):
         impls.append(r)
         skip.append(amb)
 
+    def call_case(call, history, kind):
+        history = earlier(call) + [h for h in history if h not in earlier(call)]
+        r, bad = do_call(T, call)
+        ms = [float(Fraction(x)) for x in call["masses"]]
+        ftol = Fraction(call["tol"])
+        inp = dict(call, kind=kind, history=list(history))
+        ctx.count("calls:" + kind)
+        ctx.count("tol:%g" % float(ftol))
+        if "ok" not in r:
+            ctx.count("outcome:" + r["err"])
+        add(inp, r, bad, ms, float(ftol), any(ambiguous(T, fr(m), ftol) for m in ms))
+
+    def mk(op, ms, tol, **kw):
+        c = {"op": op, "masses": [core.q(m) for m in ms], "tol": core.q(tol)}
+        if op == "load_elements":
+            c.update(comments=[None] * len(ms), types=list(range(len(ms))))
+        c.update(kw)
+        return c
+
+    # 0. the shared mass table must be what the source says — before anything ran, after constructor calls with unknown /
+    #    odd element names (which must not leave anything behind), and after the whole run; then small masses through
+    #    both entry points (a polluted table would turn them into "elements")
+    bad = table_check(T)
+    ctx.case({"op": "table-check", "stage": "start", "constructs": []}, nontrivial=False)
+    if bad:
+        ctx.fail(bad, {"op": "table-check", "stage": "start", "constructs": []}, required="ATOMIC_MASSES equals the source table")
+    constructs = []
+    odd = ["M", "X", "D", "Xx", "Du", "Q_1", "1", "2", "", "c", "zr", "LP", "EP", "Null", "H+", "C13"]
+    for k in range(ctx.n(40, 200)):
+        names = [rng.choice(odd) for _ in range(rng.randint(1, 3))]
+        good = rng.sample(syms, rng.randint(0, 3))
+        els = good + names
+        rng.shuffle(els)
+        how = ["elements", "elements+masses", "types", "types+masses", "cml"][k % 5]
+        c = {"op": "construct", "how": how, "elements": els, "masses": [], "tol": "0"}
+        r, _ = do_call(T, c)
+        constructs.append(c)
+        ctx.case(c, nontrivial=True)
+        ctx.count("construct:%s:%s" % (how, "ok" if "ok" in r else r["err"]))
+        if k % 8 == 7 or k < 5:
+            bad = table_check(T)
+            rec = {"op": "table-check", "stage": "after-constructors", "constructs": list(constructs)}
+            ctx.case(rec, nontrivial=True)
+            if bad:
+                ctx.fail(bad, rec, required="constructing structures (successfully or not) leaves ATOMIC_MASSES untouched")
+            # then: small masses through both entry points, stateless oracle
+            for m in (0.05, 0.0, 0.09, 0.0999, 1e-3, -0.05, 0.5):
+                tol = rng.choice([0.1, 0.1, 0.5, 0.01, 1.0])
+                call_case(mk("guess", [m], tol, default=(tol == 0.1)), list(constructs), "after-construct-guess")
+                other = float(masses[rng.choice(syms)])
+                call_case(mk("load_elements", [other, m], tol, default=(tol == 0.1), comments=["OW", "MW"], types=[0, 1, 1]),
+                          list(constructs), "after-construct-load")
+
     # 1. every single mass of the sweep, through guess_elements_from_masses
     for tol in tolerances(ctx):
         ftol = fr(tol)
@@ -408,25 +522,6 @@ def run(ctx, oracle_only=False):
         load_case(ms, tol, comments, types, tol == 0.1 and k % 2 == 0, k % 4 == 1, "many-types")
 
     # 3c. every keyword at default / edge / non-default values, and SEQUENCES of calls in one process
-    def call_case(call, history, kind):
-        history = earlier(call) + [h for h in history if h not in earlier(call)]
-        r, bad = do_call(T, call)
-        ms = [float(Fraction(x)) for x in call["masses"]]
-        ftol = Fraction(call["tol"])
-        inp = dict(call, kind=kind, history=list(history))
-        ctx.count("calls:" + kind)
-        ctx.count("tol:%g" % float(ftol))
-        if "ok" not in r:
-            ctx.count("outcome:" + r["err"])
-        add(inp, r, bad, ms, float(ftol), any(ambiguous(T, fr(m), ftol) for m in ms))
-
-    def mk(op, ms, tol, **kw):
-        c = {"op": op, "masses": [core.q(m) for m in ms], "tol": core.q(tol)}
-        if op == "load_elements":
-            c.update(comments=[None] * len(ms), types=list(range(len(ms))))
-        c.update(kw)
-        return c
-
     # edge tolerances: 0 (int and float and numpy: nothing is strictly within 0), tiny, negative, huge — masses are exact
     # table masses, masses clearly off (so that "within 0" cannot be a rounding question) and absurd ones
     picks = rng.sample(syms, ctx.n(12, 60)) + ["C", "K", "Bk"]
@@ -487,6 +582,11 @@ def run(ctx, oracle_only=False):
             impls.append({"ok": r["ok"]})
             skip.append(any(ambiguous(T, fr(m), fr(0.1)) for m in ms))
 
+    bad = table_check(T)
+    ctx.case({"op": "table-check", "stage": "end", "constructs": []}, nontrivial=False)
+    if bad:
+        ctx.fail(bad, {"op": "table-check", "stage": "end", "constructs": []},
+                 required="ATOMIC_MASSES equals the source table after the whole run")
     ctx.exhaustive = True
     ctx.notes.append("elements not separated by 2*0.1 from all others (excluded from the 'survives unchanged' demand): %s"
                      % sorted(set(syms) - sep))
@@ -537,6 +637,8 @@ def replay(ctx, rec):
     T = table()
     if inp["op"] == "roundtrip":
         return oracle_roundtrip(T, separated(T, Fraction(1, 10)), inp["elements"], real_roundtrip(inp["elements"])) is None
+    if inp["op"] in ("table-check", "construct"):
+        return do_call(T, inp)[1] is None
     if "history" in inp:
         for c in inp["history"]:
             do_call(T, c)
